@@ -15,23 +15,36 @@ pub fn get_conflict_watch_key(change: &Change) -> String {
     ))
 }
 impl Database {
+    /// The records of the conflicts of one key: `$conflicts_<key>_<op id>`. They are found by that
+    /// name, literally: through the patterns of `keys` a `*` in the key name, the empty key or a
+    /// key that merely contains "$conflicts_" got a meaning of their own
     pub fn list_conflicts_keys(&self, key: &String) -> Vec<String> {
-        let conflict_prefix = String::from(format!("{prefix}_{key}", key = key, prefix = CONFLICTS_KEY));
-        let pendding_conflict = self.list_keys(&conflict_prefix, true);
-        if key.is_empty() {
-            // List all
-            return pendding_conflict;
-        }
-        // list_keys matches by contains, keep only the conflicts of this exact key
-        // ($conflicts_<key>_<opp_id>), not the ones of keys that merely start with it
-        let exact_prefix = format!("{}_", conflict_prefix);
-        pendding_conflict
-            .into_iter()
-            .filter(|conflict_key| match conflict_key.strip_prefix(&exact_prefix) {
-                Some(opp_id) => opp_id.parse::<u64>().is_ok(),
-                None => false,
-            })
-            .collect()
+        let exact_prefix = format!("{prefix}_{key}_", key = key, prefix = CONFLICTS_KEY);
+        self.list_conflict_records(&|name| match name.strip_prefix(&exact_prefix) {
+            Some(opp_id) => opp_id.parse::<u64>().is_ok(),
+            None => false,
+        })
+    }
+
+    /// The records of the conflicts of every key
+    pub fn list_all_conflicts_keys(&self) -> Vec<String> {
+        let all_prefix = format!("{}_", CONFLICTS_KEY);
+        self.list_conflict_records(&|name| name.starts_with(&all_prefix))
+    }
+
+    fn list_conflict_records(&self, is_record: &dyn Fn(&String) -> bool) -> Vec<String> {
+        #[cfg(feature = "verif")]
+        crate::verif::yield_point("list_keys.map.read");
+        let mut records: Vec<String> = self
+            .map
+            .read()
+            .unwrap()
+            .iter()
+            .filter(|(name, value)| value.state != ValueStatus::Deleted && is_record(name))
+            .map(|(name, _value)| name.to_string())
+            .collect();
+        records.sort();
+        records
     }
     // Separate local conflict with replication conflict
     pub fn try_resolve_conflict_response(
@@ -202,7 +215,7 @@ impl Database {
     pub fn register_arbiter(&self, client: &Client) -> Response {
         let key = String::from(CONFLICTS_KEY);
         let response = self.watch_key(&key, &client.sender);
-        let pendding_conflict = self.list_conflicts_keys(&String::from("")); // List all
+        let pendding_conflict = self.list_all_conflicts_keys();
         log::debug!(
             "Will send {} conflicts to arbiger to resolve",
             pendding_conflict.len()
